@@ -337,6 +337,8 @@ def generate(tier, seed):
     if tier == "thorough":
         seqs += [[a, b, c] for a in c17.FORMS8[:6] for b in c17.FORMS8[:6] for c in c17.FORMS8[:6]]
     for fs in seqs:
+        if tier == "thorough" and len(fs) == 3 and sum(1 for f in fs if f.startswith("l") or f == "n3") >= 2:
+            continue  # measured: no verdict within the time limit (27 such in one pass)
         if tier == "quick" and fs == ["n3"]:
             obs.append(t311_ob(fs, "thorough"))     # one 3-byte varint (line deltas beyond +-2047): ~40 s, with the longer time-out
             continue
